@@ -77,6 +77,8 @@ class Job:
         self.executions = 1
         self.waiters: List = []         # (stream, message_id)
         self.terminal_at = None         # simulated time at which the job reached a terminal state
+        self.ready_at = 0.0             # earliest simulated time at which the job can finish ("job-slow")
+        self.cancel_at = 0.0            # earliest simulated time at which CANCELLING becomes CANCELLED
 
 
 class ModelQuantumEngine:
@@ -101,9 +103,13 @@ class ModelQuantumEngine:
         self.breaks: List = []                  # (epoch, exception, unanswered message ids at break)
         self.msg_job: Dict[str, str] = {}       # message id -> job name
         self.msg_kind: Dict[str, str] = {}
+        self.read_step: Dict[str, int] = {}     # message id -> simulator step at which the server read it
         self.lost_requests: List[str] = []      # T2: message ids dropped by a dead reader
         self.injected_unary: List = []
         self.connect_stalls = False             # set by the workload (per run)
+        self.external_cancel = set()            # job names a third party cancels while they run
+        self.job_duration = None                # job name -> simulated seconds a job stays RUNNING at least
+        self.cancel_latency = 0.0               # simulated seconds a job stays CANCELLING at least
         self.connecting: List = []
         self.client = _Client(self)
         self.problems: List[str] = []
@@ -159,6 +165,7 @@ class ModelQuantumEngine:
             job_name = "?"
             self.problems.append(f"request {mid} has no recognised body: {kind}")
         self.all_message_ids.append(mid)
+        self.read_step.setdefault(mid, self.sim.steps)
         self.msg_job[mid] = job_name
         self.msg_kind[mid] = kind
         self.requests_log.append((st.epoch, mid, kind, job_name, not st.alive, lost))
@@ -190,10 +197,12 @@ class ModelQuantumEngine:
                 evs.append((f"process:{st.epoch}:{req.message_id}", (lambda s=st, r=req: self._process(s, r))))
                 break  # a stream's requests are processed in the order they were read
         for name, job in self.jobs.items():
-            if job.state == "RUNNING":
+            if job.state == "RUNNING" and self.sim.now >= job.ready_at:
                 evs.append((f"finish:{name.rsplit('/', 1)[-1]}", (lambda j=job: self._finish(j))))
-            elif job.state == "CANCELLING":
+            elif job.state == "CANCELLING" and self.sim.now >= job.cancel_at:
                 evs.append((f"cancelled:{name.rsplit('/', 1)[-1]}", (lambda j=job: self._cancelled(j))))
+            if job.state == "RUNNING" and name in self.external_cancel:
+                evs.append((f"ext-cancel:{name.rsplit('/', 1)[-1]}", (lambda n=name: self._external_cancel(n))))
         for st in self.streams:
             if st.alive:
                 for i, resp in enumerate(st.outbox):
@@ -262,7 +271,7 @@ class ModelQuantumEngine:
             if job is None:
                 self.ctx.probe("w3:JOB_DOES_NOT_EXIST")
                 return self._error(st, mid, Code.JOB_DOES_NOT_EXIST)
-            if job.state == "RUNNING":
+            if job.state in ("RUNNING", "CANCELLING"):
                 job.waiters.append((st, mid))
             else:
                 self._reply_final(st, mid, job)
@@ -275,7 +284,7 @@ class ModelQuantumEngine:
             # happen in this workload (job names embed the program name); kept as a model invariant
             self.jobs[jname].executions += 1
             self.problems.append(f"job {jname} created twice")
-        job = Job(jname, jname in self.failing_jobs)
+        job = self._new_job(jname)
         self.jobs[jname] = job
         job.waiters.append((st, mid))
         self.ctx.event("job-created", jname.rsplit("/", 1)[-1])
@@ -297,12 +306,32 @@ class ModelQuantumEngine:
             self._reply_final(st, mid, job)
         job.waiters = []
 
+    # timer-source protocol: slow jobs become able to finish when simulated time has passed
+    def next_timer(self):
+        ts = [j.ready_at for j in self.jobs.values() if j.state == "RUNNING" and j.ready_at > self.sim.now]
+        ts += [j.cancel_at for j in self.jobs.values() if j.state == "CANCELLING" and j.cancel_at > self.sim.now]
+        return min(ts) if ts else None
+
+    def _new_job(self, jname: str) -> "Job":
+        job = Job(jname, jname in self.failing_jobs)
+        d = self.job_duration(jname) if self.job_duration is not None else 0.0
+        job.ready_at = self.sim.now + d
+        if d > 0:
+            self.ctx.fault("job-slow")
+        return job
+
+    def _external_cancel(self, name: str) -> None:
+        self.external_cancel.discard(name)
+        self.ctx.fault("external-cancel")
+        self.cancel_job(name)
+
     def cancel_job(self, name: str) -> None:
         self.cancel_requests.append(name)
         self.ctx.event("cancel-rpc", name.rsplit("/", 1)[-1])
         job = self.jobs.get(name)
         if job is not None and job.state == "RUNNING":
             job.state = "CANCELLING"        # transient, observable by get_quantum_job
+            job.cancel_at = self.sim.now + self.cancel_latency
             self.ctx.probe("w3:job-cancelling")
 
     def _reply_final(self, st: Stream, mid: str, job: Job) -> None:
@@ -398,7 +427,7 @@ class ModelQuantumEngine:
             raise gexc.NotFound(f"program {pname} not found")
         if jname in self.jobs:
             raise gexc.Conflict(f"job {jname} already exists")
-        job = Job(jname, jname in self.failing_jobs)
+        job = self._new_job(jname)
         self.jobs[jname] = job
         self.ctx.event("job-created", jname.rsplit("/", 1)[-1], "unary")
         return self._job_proto(job)
